@@ -14,7 +14,8 @@ Inductive elogic :=
 | LNone                                             (* logic not invoked *)
 | LAnn (complete incomplete : Z) (peers : list (list Z)) (interval min_interval : Z) (v4n v6n : Z)
 | LScr (files : list (Z * Z))
-| LErr.
+| LErr
+| LSkip.                                            (* not recorded (concurrent stress): only the wire is judged *)
 
 Inductive ereq :=
 | EClock (ns : Z)
@@ -72,6 +73,7 @@ Definition judge_ann (c : ecfg) (x : est) (a : ann) (lg : elogic) : est * list Z
     (x', (if rv =? 0 then [] else [rv]) ++ (if fam then [] else [31]) ++ (if lists then [] else [32]) ++
          (if (iv =? e_interval c) && (miv =? e_min_interval c) then [] else [14]),
      match decode_all peers with Some ps => Some (cm, ic, ps) | None => None end)
+  | LSkip => (x', [], None)          (* population set-up of the stress stream: state follows, response not judged *)
   | _ => (x', [3], None)
   end.
 
@@ -85,9 +87,9 @@ Definition step (c : ecfg) (x : est) (r : ereq) : est * list Z :=
     if negb (Nat.ltb (length packet) 16 || (G10.mac_has macs (e_key c) (sub 0 4 packet ++ ip) && G10.mac_has macs (e_key c) (ConnID.ts4 (x_clock x) ++ ip)))
     then (x, [199]) else
     match UdpParse.handle_udp mac (e_key c) (e_skew c) (x_clock x) (uopts c) ip packet with
-    | UdpParse.USilent => (x, (if Nat.eqb (length dg) 0 then [] else [2]) ++ (match lg with LNone => [] | _ => [3] end))
+    | UdpParse.USilent => (x, (if Nat.eqb (length dg) 0 then [] else [2]) ++ (match lg with LNone | LSkip => [] | _ => [3] end))
     | UdpParse.UReply d =>
-      (x, (match lg with LNone => [] | _ => [3] end) ++
+      (x, (match lg with LNone | LSkip => [] | _ => [3] end) ++
           (match dg with [d'] => if bytes_eqb d d' then [] else [4] | _ => [2] end))
     | UdpParse.UPanic => (x, [198])
     | UdpParse.UAnnounce txid v6action rq q =>
@@ -98,12 +100,13 @@ Definition step (c : ecfg) (x : est) (r : ereq) : est * list Z :=
            | [d], Some (cm, ic, ps) =>
              if bytes_eqb d (udp_announce_datagram (tc c) txid v6action a cm ic ps) then [] else [5]
            | [_], None => []
+           | [], None => (match lg with LSkip => [] | _ => [2] end)
            | _, _ => [2]
            end)
     | UdpParse.UScrape txid af ihs =>
       let v6 := match af with V6 => true | V4 => false end in
       let want := map (fun ih => st_scrape spec_if ih v6 st) ihs in
-      (x, (match lg with LScr files => if bool_decide (files = want) then [] else [12] | _ => [3] end) ++
+      (x, (match lg with LScr files => if bool_decide (files = want) then [] else [12] | LSkip => [] | _ => [3] end) ++
           (match dg with [d] => if bytes_eqb d (udp_scrape_datagram spec_if txid v6 ihs st) then [] else [5] | _ => [2] end))
     end
   | EHttpAnn uri remote hdrval host ips o_panic body lg =>
@@ -173,6 +176,8 @@ Definition chkE_with (codes : list Z) (c : ecase) : verdict :=
    request is well-formed and authorised (3), and every answer correct whatever preceded it *)
 Definition chkE13 := chkE_with [1; 2; 3; 4; 5; 6; 11; 12; 13; 14; 21; 22; 23; 24; 25; 26; 31; 32; 33; 198; 199].
 Definition chkE09 := chkE_with [2; 4; 5].
+(* C04, concurrent datagrams: every response is the one its own request calls for *)
+Definition chkE04 := chkE_with [1; 2; 4; 5; 12].
 Definition chkE08 := chkE_with [6].
 Definition chkE03 := chkE_with [31; 32; 33; 5; 6].
 (* C11: the address stored and handed out is the request's *)
